@@ -195,6 +195,9 @@ def r2(prog, rep):
         rep.ob("R2", "circular (constant q): d dpsidr_r/dr == d2psidr2_r", e2.is_zero(), site, "residual " + e2.residual()[:160], key="circular/profile-2")
     except AlgError as e:
         rep.undecided("circular radial profile consistency not representable: %s" % e)
+    # the profile rules below model self.q / self.dqdr as q = a0 + a1 r^2, dq/dr = 2 a1 r: what the
+    # two methods actually compute is decided here, as written, for one to three coefficients
+    circular_q_rules(prog, rep, site)
     # quadratic safety factor q = a0 + a1 r^2 (closed form with a logarithm of nested radicals)
     from ..alg import radical_rewrite
     ctx3 = Context()
@@ -217,6 +220,108 @@ def r2(prog, rep):
         rep.ob("R2", "circular (q = a0 + a1 r^2): d dpsidr_r/dr == d2psidr2_r", e2.is_zero(), site, "residual " + e2.residual()[:160], key="circular/profile2-2")
     except AlgError as e:
         rep.undecided("circular radial profile (two q coefficients) not representable: %s" % e)
+
+
+def circular_q_rules(prog, rep, site):
+    """CircularEquilibrium.q is the even polynomial of its documentation, q(r) = a0 + a1 r^2 + a2 r^4 + ...,
+    and dqdr is its formal derivative.  Both methods build `sum(c * f(e, x) for c, e in zip(coef_list,
+    exponent_list))` with exponent_list a `range(...)` over len(coef_list); the range is evaluated for
+    n = 1, 2, 3 coefficients and the sum formed symbolically."""
+    mod = prog.module("hypnotoad/cases/circular.py")
+
+    def polynomial(name, n):
+        f = mod.funcs.get("CircularEquilibrium." + name)
+        if f is None:
+            raise AnalysisError("CircularEquilibrium.%s not found" % name)
+        ctx = Context()
+        x = ctx.sym("x")
+        coefs = [ctx.sym("a%d" % k) for k in range(n)]
+        # follow the statements of the `if not hasattr` block that apply to n coefficients
+        body = next((st.body for st in f.node.body if isinstance(st, ast.If) and "hasattr" in mod.code(st.test)), None)
+        if body is None:
+            raise AlgError("cached-closure block not found")
+        state = {"coef_list": list(coefs)}
+
+        def pyval(e):
+            """small integer / list evaluation of the bookkeeping expressions"""
+            if isinstance(e, ast.Constant):
+                return e.value
+            if isinstance(e, ast.Name) and e.id in state:
+                return state[e.id]
+            if isinstance(e, ast.Call) and mod.code(e.func) == "len" and len(e.args) == 1:
+                return len(pyval(e.args[0]))
+            if isinstance(e, ast.Call) and mod.code(e.func) == "range":
+                return list(range(*[pyval(a) for a in e.args]))
+            if isinstance(e, ast.BinOp) and isinstance(e.op, (ast.Add, ast.Sub, ast.Mult)):
+                a, b = pyval(e.left), pyval(e.right)
+                return a + b if isinstance(e.op, ast.Add) else (a - b if isinstance(e.op, ast.Sub) else a * b)
+            if isinstance(e, ast.Subscript) and isinstance(e.slice, ast.Slice):
+                lo = pyval(e.slice.lower) if e.slice.lower is not None else None
+                hi = pyval(e.slice.upper) if e.slice.upper is not None else None
+                return pyval(e.value)[lo:hi]
+            if isinstance(e, ast.Attribute) and mod.code(e) == "self.user_options.q_coefficients":
+                return list(coefs)
+            raise AlgError("unmodelled bookkeeping expression %s" % mod.code(e))
+
+        result = [None]
+
+        def run(stmts):
+            for st in stmts:
+                if isinstance(st, ast.Assign) and isinstance(st.targets[0], ast.Name):
+                    state[st.targets[0].id] = pyval(st.value)
+                elif isinstance(st, ast.If):
+                    t = st.test
+                    if isinstance(t, ast.Compare) and len(t.ops) == 1 and isinstance(t.ops[0], ast.Eq):
+                        run(st.body if pyval(t.left) == pyval(t.comparators[0]) else st.orelse)
+                    else:
+                        raise AlgError("unmodelled test %s" % mod.code(t))
+                elif isinstance(st, ast.FunctionDef):
+                    rets = [r for r in ast.walk(st) if isinstance(r, ast.Return)]
+                    if len(rets) != 1:
+                        raise AlgError("closure with %d returns" % len(rets))
+                    v = rets[0].value
+                    arg = st.args.args[0].arg
+                    if isinstance(v, ast.Constant):
+                        result[0] = ctx.const(0) if v.value == 0 else None
+                    elif isinstance(v, ast.Call) and mod.code(v.func) == "sum" and isinstance(v.args[0], ast.GeneratorExp):
+                        g = v.args[0]
+                        gen = g.generators[0]
+                        if not (isinstance(gen.iter, ast.Call) and mod.code(gen.iter.func) == "zip" and isinstance(gen.target, ast.Tuple) and len(gen.target.elts) == 2):
+                            raise AlgError("unmodelled sum %s" % mod.code(v))
+                        cs, es = pyval(gen.iter.args[0]), pyval(gen.iter.args[1])
+                        cn, en = gen.target.elts[0].id, gen.target.elts[1].id
+                        ex = Extractor(ctx, mod)
+                        tot = ctx.const(0)
+                        for c, e in zip(cs, es):
+                            tot = tot + ex.expr(g.elt, {cn: c, en: ctx.const(e), arg: x})
+                        result[0] = tot
+                    else:
+                        raise AlgError("unmodelled closure body %s" % mod.code(v))
+        run(body)
+        if result[0] is None:
+            raise AlgError("no closure value")
+        return ctx, x, coefs, result[0]
+
+    for n in (1, 2, 3):
+        try:
+            ctx, x, coefs, q = polynomial("q", n)
+            want = ctx.const(0)
+            for k, c in enumerate(coefs):
+                want = want + c * x ** (2 * k)
+            okq, dq_detail = (q - want).is_zero(), "residual " + (q - want).residual()[:160]
+        except AlgError as e:
+            okq, dq_detail = False, "not representable: %s" % e
+        rep.ob("R2", "circular: q(r) with %d coefficient(s) is a0 + a1 r^2 + ... (even powers, as documented)" % n, okq, site, dq_detail, key="circular/q/%d" % n)
+        try:
+            ctx2, x2, coefs2, dq = polynomial("dqdr", n)
+            want = ctx2.const(0)
+            for k, c in enumerate(coefs2):
+                if k:
+                    want = want + c * (2 * k) * x2 ** (2 * k - 1)
+            ok, detail = (dq - want).is_zero(), "residual " + (dq - want).residual()[:160]
+        except AlgError as e:
+            ok, detail = False, "not representable: %s" % e
+        rep.ob("R2", "circular: dqdr with %d coefficient(s) is the derivative of q: sum 2k a_k r^(2k-1)" % n, ok, site, detail, key="circular/dqdr/%d" % n)
 
 
 class ProfileEx(ClassEx):
